@@ -383,7 +383,7 @@ PROPS["C19"] = dict(
 
 PROPS["C18"] = dict(
     modules=["common", "c18"],
-    contracts=["URL._build_url", "URL.replace"],
+    contracts=["URL._build_url", "URL.replace", "URL.__init__[scope]", "URL.__init__[environ]"],
     refute={"quick": [2], "thorough": [1, 2, 3]},
     native="c18",
     level="other",
@@ -396,8 +396,12 @@ PROPS["C18"] = dict(
                "query and fragment are the given value or the old one, and the authority is re-assembled as "
                "[user[:password]@]host[:port] from the given-or-old user, password and port and - unless a hostname is given "
                "- the old host, i.e. the text after the LAST '@' without a trailing :port (IP literals in brackets kept whole); "
-               "IndexError only for an empty host. BOUNDED (labelled): that the environ and the scope construction give the "
-               "same URL with exactly the request's components, replace observed through urlsplit on named/IPv4/IPv6 hosts "
+               "IndexError only for an empty host.  URL.__init__ (the constructor from an ASGI scope and from a WSGI environ, "
+               "_build_url through its contract): the stored text is that builder applied to exactly the request's components - "
+               "scope: scheme (default http), root_path + path, query_string, server, and the FIRST b'host' header (loop with "
+               "break, invariant over the header list); environ: wsgi.url_scheme, the UTF-8 reading of SCRIPT_NAME + PATH_INFO, "
+               "QUERY_STRING, (SERVER_NAME, int(SERVER_PORT)) and HTTP_HOST - so both constructions are the same function of "
+               "corresponding fields. BOUNDED (labelled): the environ / scope parity on concrete requests, replace observed through urlsplit on named/IPv4/IPv6 hosts "
                "with user, password (incl. a literal '@') and port, the query helpers and the password masking of repr are "
                "run over an enumerated grid.",
     level_note="Trusted: bytes.decode() as utf8_decode/utf8_ok (uninterpreted); SplitResult is abstract in the replace "
@@ -406,7 +410,7 @@ PROPS["C18"] = dict(
                "(A-urlsplit, stated as precondition); that urlsplit parses the re-assembled authority back into the same "
                "components is stdlib behaviour, checked bounded only (A-url-1); the server's environ<->scope mapping (A-wsgi-2). Known findings (open): a decoded path containing '?' or '#' is pasted into the URL text unquoted; replace() splices user names / passwords containing URL delimiters in unquoted.",
     technique="deductive verification: exact string contracts of the URL builder and of component-wise replace over all branch combinations, SMT strings (z3/cvc5 raced); bounded grid for construction parity and urlsplit round trips",
-    explanation="proved: _build_url string construction, replace re-assembly of the authority; bounded: environ/scope parity, urlsplit round trip of replace, query helpers, repr masking.",
+    explanation="proved: _build_url string construction, URL.__init__ from scope and from environ (which request fields go where), replace re-assembly of the authority; bounded: environ/scope parity on concrete requests, urlsplit round trip of replace, query helpers, repr masking.",
 )
 
 PROPS["C07"] = dict(
